@@ -72,7 +72,17 @@ pub fn num_exp(r: &mut Rng, ds: &[VarDecl], c: &ModelCfg, depth: u32) -> Exp {
             1 => Exp::BinOp(BinOp::Div, Box::new(num_exp(r, ds, c, d)), Box::new(Exp::Number(0.0))),
             2 => Exp::BinOp(BinOp::Div, Box::new(Exp::Number(1.0)), Box::new(Exp::Variable(r.pick(ds).name.clone()))),
             3 => if r.chance(1, 2) { Exp::Min(vec![]) } else { Exp::Max(vec![]) },
-            4 => Exp::And(vec![Exp::Variable(r.pick(ds).name.clone()), Exp::Number(*r.pick(&[1.0, 1.0, 2.0, 0.0]))]),
+            4 => {
+                // identity constant of the and/or written as a literal or as a constant EXPRESSION
+                let k = match r.below(6) {
+                    0 => Exp::BinOp(BinOp::Sub, Box::new(Exp::Number(2.0)), Box::new(Exp::Number(1.0))),
+                    1 => Exp::BinOp(BinOp::Mul, Box::new(Exp::Number(1.0)), Box::new(Exp::Number(1.0))),
+                    2 => Exp::Not(Box::new(Exp::Number(0.0))),
+                    _ => Exp::Number(*r.pick(&[1.0, 1.0, 2.0, 0.0])),
+                };
+                let v = Exp::Variable(r.pick(ds).name.clone());
+                if r.chance(1, 4) { Exp::Or(vec![v, Exp::BinOp(BinOp::Sub, Box::new(Exp::Number(1.0)), Box::new(Exp::Number(1.0)))]) } else { Exp::And(vec![v, k]) }
+            }
             5 => Exp::Not(Box::new(num_exp(r, ds, c, d))),
             _ => Exp::BinOp(BinOp::Mul, Box::new(Exp::Number(0.0)), Box::new(Exp::BinOp(BinOp::Div, Box::new(num_exp(r, ds, c, d)), Box::new(Exp::Number(0.0))))),
         };
@@ -246,7 +256,18 @@ pub fn extreme_model(r: &mut Rng) -> (Model, Vec<VarDecl>) {
     let mut cons = vec![];
     let mut obj = Exp::Variable("x".into());
     let mut opt = if r.chance(1, 2) { OptimizationType::Min } else { OptimizationType::Max };
-    match r.below(6) {
+    match r.below(7) {
+        6 => {
+            // the SAME min/max twice: first where a one-sided lowering suffices (objective), then where its exact
+            // value is needed (constraint in the other direction / under abs)
+            opt = if is_max { OptimizationType::Min } else { OptimizationType::Max };
+            obj = Exp::BinOp(BinOp::Add, Box::new(ext.clone()), Box::new(Exp::BinOp(BinOp::Add, Box::new(Exp::Variable("x".into())), Box::new(Exp::Variable("y".into())))));
+            if r.chance(1, 2) {
+                cons.push(Constraint::new(ext.clone(), if is_max { Comparison::GreaterOrEqual } else { Comparison::LessOrEqual }, Exp::Number(k), "again".into()));
+            } else {
+                cons.push(Constraint::new(Exp::Abs(Box::new(Exp::BinOp(BinOp::Sub, Box::new(ext.clone()), Box::new(Exp::Number(k))))), Comparison::GreaterOrEqual, Exp::Number(1.0), "again".into()));
+            }
+        }
         5 => {
             // a TINY negative scale (2^-20, below the 1e-5 float tolerance) on the non-affine term, in the direction
             // that needs the exact encoding after the sign flip
@@ -271,4 +292,21 @@ pub fn extreme_model(r: &mut Rng) -> (Model, Vec<VarDecl>) {
     }
     if r.chance(1, 2) { cons.push(Constraint::new(Exp::BinOp(BinOp::Add, Box::new(Exp::Variable("x".into())), Box::new(Exp::Variable("y".into()))), comparison(r), Exp::Number(r.range(-3, 6) as f64), "cap".into())); }
     (build(opt, obj, cons, &ds), ds)
+}
+
+/// An integer variable bounded by a row whose coefficient is not representable (`1.3 * i <= 9.1`: the quotient is one
+/// ulp below an integer), with the optimum on that bound: rounding of inferred integer ranges within the tolerance.
+pub fn integer_noise_model(r: &mut Rng) -> (Model, Vec<VarDecl>) {
+    let a = *r.pick(&[1.3, 0.7, 1.1, 2.3, 0.3, 1.9]);
+    let k = r.range(3, 9) as f64;
+    let ds = vec![VarDecl { name: "i".into(), ty: VariableType::IntegerRange(0, 12) }, VarDecl { name: "y".into(), ty: VariableType::Real(0.0, 20.0) }];
+    let i = || Exp::Variable("i".into());
+    let mut cons = vec![Constraint::new(Exp::BinOp(BinOp::Mul, Box::new(Exp::Number(a)), Box::new(i())), Comparison::LessOrEqual, Exp::Number(a * k), "cap".into())];
+    let obj = match r.below(3) {
+        0 => Exp::Max(vec![i(), Exp::Number(k - 0.5)]),
+        1 => Exp::BinOp(BinOp::Add, Box::new(i()), Box::new(Exp::Min(vec![Exp::Variable("y".into()), i()]))),
+        _ => i(),
+    };
+    if r.chance(1, 2) { cons.push(Constraint::new(Exp::Variable("y".into()), Comparison::LessOrEqual, Exp::BinOp(BinOp::Add, Box::new(i()), Box::new(Exp::Number(0.5))), "".into())); }
+    (build(OptimizationType::Max, obj, cons, &ds), ds)
 }
